@@ -46,14 +46,47 @@ def jobs(tier):
     return js
 
 
+def script_codes(maxlen):
+    """all scripts of 1..maxlen operations over the four-letter alphabet, as base-5 numbers (digits 1..4)"""
+    out = []
+
+    def rec(prefix, n):
+        if n == 0:
+            return
+        for d in (1, 2, 3, 4):
+            code = prefix * 5 + d
+            out.append(code)
+            rec(code, n - 1)
+    rec(0, maxlen)
+    return out
+
+
+def enum_jobs(tier):
+    """every pair of scripts (thread 1, thread 2) up to the length bound - the operation combinations are enumerated, not
+    hand-picked; low preemption bound per pair"""
+    js = []
+    q = tier == "quick"
+    plans = [(2, 0)] if q else [(2, 1), (3, 0)]   # (script length bound, preemption bound)
+    for maxlen, bound in plans:
+        codes = script_codes(maxlen)
+        for scn, tbuf, soft, hard in (("c03.ub", 2, 2, 4),) if q else (("c03.ub", 2, 2, 4), ("c03.bb", 1, 1, 2)):
+            for a in codes:
+                for b in codes:
+                    js.append({"scenario": scn, "cfg": {"shape": -1, "t1": a, "t2": b, "tbuf": tbuf, "soft": soft, "hard": hard},
+                               "bound": bound, "deadline": 120})
+    return js
+
+
 def run(ctx):
     ctx.rule = ("all schedules up to the preemption bound of 2-3 frontend threads x 1-3 operations (small / near-capacity "
                 "statements, flush_log() of another thread, two loggers sharing a sink, thread exit at the end of every script) against the real backend "
                 "preemptible at its four yield hooks and poll boundaries; queue type x transit-buffer capacity x soft/hard "
-                "limit grid; one forked process per schedule; distinct = distinct observable outcomes (sink record sequences)")
+                "limit grid; plus every pair of scripts of up to 2 (thorough: 3) operations over {small A, near-capacity A, small B, "
+                "flush_log} under preemption bound 0 (thorough: length 2 under bound 1, length 3 under bound 0); one forked process per schedule; distinct = distinct observable outcomes (sink record sequences)")
     ctx.set_deadline(170 if ctx.tier == "quick" else 1800)
     exe = opxlib.build("sc_c03", SRC)
     opxlib.run_jobs(ctx, exe, jobs(ctx.tier), "sc_c03")
+    opxlib.run_jobs(ctx, exe, enum_jobs(ctx.tier), "sc_c03(enum)", explorers=8, workers=2)
     # long deterministic histories (no schedule branching): 300 statements of mixed sizes (up to 9 KB: the 256-byte queue
     # grows through a chain of buffers), backend polled every 1/3/7 statements or only at the end, every limit triple
     lexe = vf.build("c03_long", LONG_SRC, LONG_FLAGS)
